@@ -1004,7 +1004,7 @@ impl World for IovecWorld {
         if ask.thorough {
             4_000_000
         } else {
-            60_000
+            80_000
         }
     }
 
